@@ -637,6 +637,12 @@ def c10_pycheck(line, out):
         return False          # readlink is a relative path
     if (r[3], r[4], r[5]) != ("b1", "b0", "b0"):
         return False          # link exclusion
+    # is_symlink_dir / is_symlink_file reflect the kind the target has at creation
+    pre_ops = ops[:i]
+    if op("mkdir_p", want_abs) in pre_ops and (r[6], r[7]) != ("b1", "b0"):
+        return False
+    if any(o.startswith("write_all:%s:" % hx(want_abs)) for o in pre_ops) and (r[6], r[7]) != ("b0", "b1"):
+        return False
     return True
 
 
